@@ -30,7 +30,8 @@ RULE += (
     " Fixed objects also include values that reach the future holding them again, twice or more, through "
     "namedtuples, record classes, dict subclasses and nested containers (repr must stay bounded). 12% of the "
     "generated traceback frame lines sit below a path 18-110 directories deep and 15% of the code lines are "
-    "239-5000 characters long; format_error must keep a 900-character message."
+    "239-5000 characters long; format_error must keep a 900-character message. 45% of the generated partial "
+    "boilerplate runs are directly followed by a complete run."
 )
 ASSUMPTIONS = ["pygments (used for highlighting) is trusted"]
 UNIT_TIMEOUT = {"quick": 240, "thorough": 2400}
